@@ -433,7 +433,137 @@ fn topo(graph: &'static [(&'static str, &'static [&'static str])]) -> Vec<&'stat
     out
 }
 
-fn gen_history(rng: &mut Rng, graph: &'static [(&'static str, &'static [&'static str])], len: usize) -> Vec<S> {
+type Graph = &'static [(&'static str, &'static [&'static str])];
+
+/// generated graphs live as long as the process (a few hundred small tables)
+fn leak_graph(v: Vec<(&'static str, Vec<&'static str>)>) -> Graph {
+    let rows: Vec<(&'static str, &'static [&'static str])> =
+        v.into_iter().map(|(p, ds)| (p, &*Box::leak(ds.into_boxed_slice()))).collect();
+    Box::leak(rows.into_boxed_slice())
+}
+
+/// every import graph over `Main` + the three names of `pool`: every acyclic set of imports among the
+/// three (25) × every set of imports of Main (8); Main is imported by nobody. Import lists are written
+/// in pool order, not in name order.
+fn all_labelled_graphs(pool: &[&'static str; 3]) -> Vec<Graph> {
+    let pairs: [(usize, usize); 6] = [(0, 1), (0, 2), (1, 0), (1, 2), (2, 0), (2, 1)];
+    let mut out = Vec::new();
+    for em in 0..(1u32 << pairs.len()) {
+        let edges: Vec<(usize, usize)> = pairs.iter().enumerate().filter(|(k, _)| em & (1 << k) != 0).map(|(_, e)| *e).collect();
+        // acyclic iff the nodes can be peeled off dependency-first
+        let mut done: Vec<usize> = Vec::new();
+        loop {
+            let before = done.len();
+            for i in 0..3 {
+                if !done.contains(&i) && edges.iter().all(|(x, y)| *x != i || done.contains(y)) {
+                    done.push(i);
+                }
+            }
+            if done.len() == before {
+                break;
+            }
+        }
+        if done.len() != 3 {
+            continue;
+        }
+        for mm in 0..8u32 {
+            let mut rows: Vec<(&'static str, Vec<&'static str>)> = Vec::new();
+            rows.push(("Main", (0..3).filter(|i| mm & (1 << i) != 0).map(|i| pool[i]).collect()));
+            for i in 0..3 {
+                rows.push((pool[i], edges.iter().filter(|(x, _)| *x == i).map(|(_, y)| pool[*y]).collect()));
+            }
+            out.push(leak_graph(rows));
+        }
+    }
+    out
+}
+
+/// a random import graph over `Main` + the names of `pool`: a random dependency order of the names, every
+/// forward pair an import with probability 1/2, Main imports each with probability 1/2 (at least one)
+fn random_labelled_graph(rng: &mut Rng, pool: &[&'static str]) -> Graph {
+    let k = pool.len();
+    let mut perm: Vec<usize> = (0..k).collect();
+    for i in (1..k).rev() {
+        let j = rng.below(i + 1);
+        perm.swap(i, j);
+    }
+    // rank[i] = position of pool[i] in the dependency order; imports go from higher to lower rank
+    let mut rank = vec![0usize; k];
+    for (pos, i) in perm.iter().enumerate() {
+        rank[*i] = pos;
+    }
+    let mut rows: Vec<(&'static str, Vec<&'static str>)> = Vec::new();
+    let mut main_imps: Vec<&'static str> = (0..k).filter(|_| rng.chance(1, 2)).map(|i| pool[i]).collect();
+    if main_imps.is_empty() {
+        main_imps.push(pool[perm[k - 1]]);
+    }
+    rows.push(("Main", main_imps));
+    for i in 0..k {
+        let ds: Vec<&'static str> = (0..k).filter(|j| rank[*j] < rank[i] && rng.chance(1, 2)).map(|j| pool[j]).collect();
+        rows.push((pool[i], ds));
+    }
+    leak_graph(rows)
+}
+
+/// one history that visits every import edge q → p of the graph: q becomes the only stale package
+/// (p's interface edited; p and every transitive dependent of p except q rebuilt, dependencies first),
+/// everything is linked, then q and its dependents are rebuilt and everything is linked again. The link
+/// inputs are given in dependency order, its reverse, and name order in turn.
+fn edge_sweep(g: Graph, salt: usize) -> Vec<S> {
+    let order = topo(g);
+    let imports = |p: &str| -> &'static [&'static str] { g.iter().find(|(q, _)| *q == p).map(|(_, d)| *d).unwrap_or(&[]) };
+    let dependents = |p: &str| -> Vec<&'static str> {
+        let mut set: Vec<&'static str> = Vec::new();
+        for q in &order {
+            if imports(q).iter().any(|d| *d == p || set.contains(d)) {
+                set.push(*q);
+            }
+        }
+        set
+    };
+    let mut links = 0usize;
+    let mut link = |ops: &mut Vec<S>| {
+        let mut ps: Vec<&'static str> = order.clone();
+        match links % 3 {
+            1 => ps.reverse(),
+            2 => ps.sort(),
+            _ => {}
+        }
+        links += 1;
+        ops.push(tagged("link", ps.iter().map(|p| a(*p)).collect()));
+    };
+    let mut ops: Vec<S> = order.iter().map(|p| tagged("build", vec![a(*p)])).collect();
+    link(&mut ops);
+    let mut cur: HashMap<&'static str, usize> = HashMap::new();
+    let mut e = salt;
+    for q in &order {
+        for p in imports(q) {
+            let was = cur.get(p).copied().unwrap_or(0);
+            let mut v = 1 + e % (IFACE_VARIANTS - 1);
+            if v == was {
+                v = 1 + v % (IFACE_VARIANTS - 1);
+            }
+            e += 1;
+            cur.insert(*p, v);
+            ops.push(tagged("edit-iface", vec![a(*p), n(v)]));
+            ops.push(tagged("build", vec![a(*p)]));
+            for r in dependents(p) {
+                if r != *q {
+                    ops.push(tagged("build", vec![a(r)]));
+                }
+            }
+            link(&mut ops);
+            ops.push(tagged("build", vec![a(*q)]));
+            for r in dependents(q) {
+                ops.push(tagged("build", vec![a(r)]));
+            }
+            link(&mut ops);
+        }
+    }
+    ops
+}
+
+fn gen_history(rng: &mut Rng,graph: &'static [(&'static str, &'static [&'static str])], len: usize) -> Vec<S> {
     let pkgs: Vec<&'static str> = graph.iter().map(|(p, _)| *p).collect();
     let order = topo(graph);
     let mut ops = Vec::new();
@@ -709,6 +839,41 @@ pub fn main(args: &util::Args) {
             tagged("link", vec![a("Main"), a("Bb"), a("Aa")]),
         ];
         run_history(&format!("cat:order:{}:{}", x, y), g, &ops, &dir.join("w"), &mut out);
+    }
+    // name/shape catalogue: the verdict of `link` must not depend on how the packages are NAMED (every
+    // traversal inside `link_cores` — sorted package list, `BTreeMap` of dependencies, whatever walk
+    // replaces them — is ordered by name) nor on where in the graph the stale import edge sits.
+    // `cat:names`: EVERY labelled import graph over Main + three packages (25 DAGs × 8 import sets of
+    // Main = 200 graphs; "labelled" = every assignment of the three names to every shape, names on both
+    // sides of "Main" in sort order); `cat:names5` / `cat:names6`: seeded samples of labelled graphs over
+    // Main + four / five packages. Per graph ONE history (`edge_sweep`): for every import edge q → p in
+    // turn, make q the ONLY stale package (edit p's interface, rebuild p and every transitive dependent
+    // of p except q), link (must be refused), then rebuild q and its dependents and link (must succeed).
+    {
+        let thorough = args.tier == "thorough";
+        let pools3: &[[&'static str; 3]] = if thorough { &[["Aa", "Kk", "Zz"], ["Aa", "Xx", "Zz"], ["Bb", "Ma", "Mainx"]] } else { &[["Aa", "Kk", "Zz"]] };
+        for (pi, pool) in pools3.iter().enumerate() {
+            for (gi, g) in all_labelled_graphs(pool).into_iter().enumerate() {
+                let ops = edge_sweep(g, gi);
+                run_history(&format!("cat:names:{}:{}", pi, gi), g, &ops, &dir.join("w"), &mut out);
+            }
+        }
+        let pools4: [[&'static str; 4]; 3] = [["Aa", "Kk", "Pp", "Zz"], ["Bb", "Ma", "Mainx", "Nn"], ["Aa", "Bb", "Cc", "Dd"]];
+        let pools5: [[&'static str; 5]; 2] = [["Aa", "Kk", "Pp", "Ww", "Zz"], ["Bb", "Cc", "Ma", "Mainx", "Nn"]];
+        let (n5, n6) = if thorough { (600, 120) } else { (36, 6) };
+        let mut root = Rng::new(args.seed ^ 0x15c0_ffee);
+        for i in 0..n5 {
+            let mut rng = root.fork(i as u64);
+            let g = random_labelled_graph(&mut rng, &pools4[i % pools4.len()]);
+            let ops = edge_sweep(g, i);
+            run_history(&format!("cat:names5:{}:{}", args.seed, i), g, &ops, &dir.join("w"), &mut out);
+        }
+        for i in 0..n6 {
+            let mut rng = root.fork(1_000_000 + i as u64);
+            let g = random_labelled_graph(&mut rng, &pools5[i % pools5.len()]);
+            let ops = edge_sweep(g, i);
+            run_history(&format!("cat:names6:{}:{}", args.seed, i), g, &ops, &dir.join("w"), &mut out);
+        }
     }
     let _ = std::fs::create_dir_all(&args.out);
     std::fs::write(args.out.join("c15.cases.tsv"), out).unwrap();
